@@ -31,7 +31,8 @@ namespace occa {
     template <class ReturnType>
     void setupReturnMemoryArray(const int size) const {
       size_t bytes = sizeof(ReturnType) * size;
-      if (bytes > returnMemory.size()) {
+      // The host reduction folds every entry of the buffer: it has to hold exactly [size] entries
+      if (bytes != returnMemory.byte_size()) {
         returnMemory = device_.template malloc<ReturnType>(size);
       }
       returnMemory.setDtype(dtype::get<ReturnType>());
